@@ -370,13 +370,15 @@ pub(crate) trait CKKSSubDefault<BE: Backend> {
             }
         );
         let n = dst.n().as_usize();
+        // Digits of the constant below the last limb of the ciphertext are beyond its precision.
+        let size = dst.size();
         if let Some(coeff) = cst_znx.re() {
-            for (limb, digit) in coeff.iter().enumerate() {
+            for (limb, digit) in coeff.iter().enumerate().take(size) {
                 dst.data_mut().at_mut(0, limb)[0] -= *digit;
             }
         }
         if let Some(coeff) = cst_znx.im() {
-            for (limb, digit) in coeff.iter().enumerate() {
+            for (limb, digit) in coeff.iter().enumerate().take(size) {
                 dst.data_mut().at_mut(0, limb)[n / 2] -= *digit;
             }
         }
